@@ -15,7 +15,7 @@ log = subprocess.check_output(['git', '-C', '/repo', 'log', '--reverse', '--form
 fixes = [l.split('|', 1) for l in log if '|fix:' in l]
 kf = json.load(open('/verif/known_findings.json'))['findings']
 known = [k for k in kf if k['status'] == 'known']
-body = 'All %d fix commits, oldest first:\n\n' % len(fixes)
+body = '### 5.3 All fix commits and known findings (generated from /repo and known_findings.json)\n\nAll %d fix commits, oldest first:\n\n' % len(fixes)
 for h, m in fixes:
     body += '* `%s` %s\n' % (h, m[5:])
 body += '\nKnown findings (`known_findings.json`, status `known`; %d):\n\n' % len(known)
